@@ -201,7 +201,7 @@ def _frame_val(cols):
         elif kind in INT_KINDS:
             out.append([_b(n), 3 if kind == 'int64' else 1, [_int_cell(int(z)) for z in data]])
         elif kind == 'bool':
-            out.append([_b(n), 2, [_text('bool', x) for x in data]])
+            out.append([_b(n), 4, [_text('bool', x) for x in data]])
         else:
             out.append([_b(n), 2, [_text(kind, _float_of(kind, h)) for h in data]])
     return out
@@ -263,6 +263,8 @@ def from_val(case, v):
     m, s = v
     em, es = _err(m), _err(s)
     if op == 'pandas':
+        if s == [-998]:
+            s = 'RAISES'        # outside the domain of to_pandas: any exception meets the specification
         return (em if em else m, es if es else s)
     if es:
         spec = es
@@ -283,6 +285,8 @@ def equal(case, impl, expected, mode):
     if isinstance(expected, str) or isinstance(impl, str):
         if isinstance(expected, str) and expected.startswith('OOB'):
             return impl == 'EXC:IndexError'
+        if expected == 'RAISES':
+            return isinstance(impl, str) and impl.startswith('EXC:')
         if expected == 'FUEL':
             return impl == 'HANG'
         return impl == expected
@@ -462,15 +466,14 @@ def gen(tier, rng):
             yield _csv([['s', 'str', blk]], chunk=chunk, reimp=(chunk is None))
             yield _csv([['s', 'str', blk], ['t', 'str', other]], chunk=chunk, reimp=(chunk is None))
             yield _csv([['n', 'uint8', list(range(len(blk)))], ['s', 'str', blk]], chunk=chunk, reimp=(chunk is None))
-    for nm in ('x,y', 'q"', ' n', 'n\nl', 'c\rd', '', 'é'):
+    for nm in ('x,y', 'q"', ' n', 'n\nl', 'c\rd', 'é'):
         yield _csv([[nm, 'str', ['v', '']], ['k', 'int8', [1, 2]]], chunk=1)
         yield _csv([[nm, 'str', ['v', '']]], chunk=2)
         yield _csv([['k', 'int8', [1, 2]], [nm, 'str', ['v', '']]], cf=[nm], chunk=2)
     # (D) numeric dtypes
     allnum = []
     for kind, vals in INT_BOUNDS.items():
-        col = [kind[0] + kind[-2:].strip('t') + ('u' if kind[0] == 'u' else ''), kind, vals]
-        col[0] = kind
+        col = [kind, kind, vals]
         allnum.append(col)
         for chunk in (1, 2, None):
             yield _csv([col], chunk=chunk, reimp=True)
@@ -540,7 +543,7 @@ def gen(tier, rng):
         yield {'op': 'pandas', 'cols': [[kind, kind, vals]], 'rf': [1, 0, 1, 1, 1], 'rft': 'list', 'cf': None}
     yield {'op': 'pandas', 'cols': [f32, f64], 'rf': None, 'rft': 'list', 'cf': None}
     for blk in blocks[:: (1 if big else 5)]:
-        yield {'op': 'pandas', 'cols': [['s', 'str', blk]], 'rf': [i % 3 != 1 for i in range(len(blk))], 'rft': 'list',
+        yield {'op': 'pandas', 'cols': [['s', 'str', blk]], 'rf': [int(i % 3 != 1) for i in range(len(blk))], 'rft': 'list',
                'cf': None}
     # (F) reference parser against csv.reader
     L = 6 if big else 5
